@@ -49,6 +49,10 @@ void read_session_map(char *dirname, struct uftrace_sym_info *sinfo, char *sid)
 		size_t namelen;
 		struct uftrace_mmap *map;
 
+		/* a line without its newline is an incomplete record (cut file) */
+		if (strchr(buf, '\n') == NULL)
+			break;
+
 		/* prevent to reuse previous iteration's result */
 		build_id[0] = '\0';
 
